@@ -207,7 +207,7 @@ Fixpoint check_labels (lab : gostring -> M (option nerr)) (ls : list gostring) :
 Lemma walk_labels_split lab : forall s cur,
   walk_labels lab cur s = check_labels lab (split_aux dot cur s).
 Proof.
-  induction s as [|x t IH]; intros cur; simpl; [reflexivity|].
+  induction s as [|x t IH]; intros cur; simpl; rewrite ?frev_rev; [reflexivity|].
   destruct (x =? dot).
   - pose proof (split_aux_nonempty dot [] t) as Hne.
     destruct (split_aux dot [] t) as [|l rest] eqn:Es; [contradiction|].
@@ -225,7 +225,7 @@ Fixpoint walk_b_list (ls : list gostring) : bool :=
 
 Lemma walk_labels_b_split : forall s cur, walk_labels_b cur s = walk_b_list (split_aux dot cur s).
 Proof.
-  induction s as [|x t IH]; intros cur; simpl; [reflexivity|].
+  induction s as [|x t IH]; intros cur; simpl; rewrite ?frev_rev; [reflexivity|].
   destruct (x =? dot).
   - pose proof (split_aux_nonempty dot [] t) as Hne.
     destruct (split_aux dot [] t) as [|l rest] eqn:Es; [contradiction|].
